@@ -204,13 +204,21 @@ where
                                         }
                                     },
                                     Message::Data(data) => {
+                                        // a member that is still to be told to stop may emit
+                                        // while the output is being ended
+                                        if ended.load(AtomicOrdering::Acquire) {
+                                            return;
+                                        }
                                         call!(sink, Message::Data(data), "to sink: {message:?}");
                                     },
                                     Message::Pull => {
                                         panic!("source must not pull");
                                     },
                                     Message::Error(error) => {
-                                        ended.store(true, AtomicOrdering::Release);
+                                        source_talkbacks[i].store(None);
+                                        if ended.swap(true, AtomicOrdering::AcqRel) {
+                                            return;
+                                        }
                                         for j in 0..n {
                                             if j != i {
                                                 if let Some(source_talkback) =
@@ -230,7 +238,7 @@ where
                                         source_talkbacks[i].store(None);
                                         let end_count =
                                             end_count.fetch_add(1, AtomicOrdering::AcqRel) + 1;
-                                        if end_count == n {
+                                        if end_count == n && !ended.swap(true, AtomicOrdering::AcqRel) {
                                             call!(sink, Message::Terminate, "to sink: {message:?}");
                                         }
                                     },
